@@ -21,6 +21,7 @@ import shutil
 import subprocess
 import sys
 import threading
+import time
 
 from vf import dialect as D
 from vf import gen
@@ -621,6 +622,7 @@ def replay(case):
 
 
 def run(ctx):
+    _t0 = time.time()
     wd = gen.mkdtemp('c14')
     states, transitions, traces = set(), 0, 0
     samples = []
@@ -720,6 +722,14 @@ def run(ctx):
         d = _hist_work.pop('xml', None)
         if d:
             shutil.rmtree(d, ignore_errors=True)
+        # the per-worker Doxygen folders of the history runs (created lazily inside the pool's processes)
+        import glob as _glob
+        for p in _glob.glob(os.path.join(os.path.dirname(wd), 'c14x-*')):
+            try:
+                if os.path.getmtime(p) >= _t0 - 1:
+                    shutil.rmtree(p, ignore_errors=True)
+            except OSError:
+                pass
     return {
         'states': len(states) + nsched_states,
         'transitions': transitions,
